@@ -219,7 +219,7 @@ func init() {
 func runC16(c *CheckCtx) {
 	names := []string{"reader.read_form", "reader.read_list", "reader.read_vector", "reader.read_hash_map", "reader.read_set", "reader.read_external",
 		"reader.read_atom", "reader.read_placeholder", "(*reader.tokenReader).peek", "(*reader.tokenReader).next",
-		"types.NewHashMap", "types.NewSet", "types.GetSlice", "lisperror.NewLispError", "repl.multiLine"}
+		"types.NewHashMap", "types.NewSet", "types.GetSlice", "lisperror.NewLispError", "repl.multiLine", "reader.Read_str"}
 	jobs := c.jobsFor(names, func(f *ssa.Function) *Job {
 		return &Job{Fn: f, PanicMode: "ignore"}
 	})
@@ -229,7 +229,7 @@ func runC16(c *CheckCtx) {
 	c.assumptions["A-SCAN: text -> tokens is the third-party scanner; brackets inside strings, raw strings and comments are not tokens (assumed)"] = true
 	c.assumptions["A-FIX(reader): rfC/rfP are the class and end position of reading one form; recursive calls are assumed to return them, each function is checked for one unfolding (rfStep)"] = true
 	c.assumptions["the statement's characterisation (completable by closers <=> EOF class naming the innermost closer; complete => never EOF class) is read off the grammar rfStep/rlC; it is not proved as a lemma over all token sequences"] = true
-	c.assumptions["Read_str/READ return read_form's error unchanged and report left-over tokens with a different message: visible in the code, not a separate obligation; Go-constructor forms («…») are classified only while their bracket is open (a constructor may return any error)"] = true
+	c.assumptions["Read_str returns read_form's error class for the whole token array (assert-at obligations) and reports left-over tokens with a different message; that READ is Read_str without placeholder table is visible in its one-line body; Go-constructor forms («…») are classified only while their bracket is open (a constructor may return any error)"] = true
 	c.assumptions["tokens are never modified after tokenize (preserves clauses on the reader functions, assumed at call sites)"] = true
 }
 
